@@ -589,3 +589,150 @@ impl KeyCap {
         }
     }
 }
+
+// ---------------------------------------------------------------------------------------------
+// real-client support (C26 space 4): a tokio runtime for the SDK's default async client and harness-owned
+// loopback HTTP/1.1 responders that play a shared redirect script
+// ---------------------------------------------------------------------------------------------
+
+/// Drive a future on a fresh current-thread tokio runtime (the SDK's default async HTTP client needs a reactor).
+pub fn block_on_tokio<F: Future>(fut: F) -> F::Output {
+    let rt = tokio::runtime::Builder::new_current_thread()
+        .enable_all()
+        .build()
+        .unwrap_or_else(|e| crate::ev::machinery(format!("cannot build a tokio runtime: {e}")));
+    rt.block_on(fut)
+}
+
+/// One request as a loopback responder received it on the wire.
+#[derive(Clone, Debug, PartialEq)]
+pub struct WireSeen {
+    /// index of the responder that received it
+    pub listener: usize,
+    pub method: String,
+    /// value of the Host header
+    pub host: String,
+    /// request target (origin form)
+    pub target: String,
+}
+
+impl WireSeen {
+    pub fn uri(&self) -> String {
+        format!("http://{}{}", self.host, self.target)
+    }
+}
+
+#[derive(Default)]
+struct LoopState {
+    /// Location to serve for the n-th request received by ANY responder; `None`/exhausted = 200
+    script: Vec<Option<String>>,
+    log: Vec<WireSeen>,
+}
+
+/// A set of HTTP/1.1 responders on 127.0.0.1 (one thread each) sharing one script and one log.
+pub struct Loopback {
+    pub ports: Vec<u16>,
+    state: Arc<Mutex<LoopState>>,
+}
+
+impl Loopback {
+    pub fn start(n: usize) -> Option<Loopback> {
+        let state: Arc<Mutex<LoopState>> = Arc::new(Mutex::new(LoopState::default()));
+        let mut ports = vec![];
+        for id in 0..n {
+            let l = std::net::TcpListener::bind("127.0.0.1:0").ok()?;
+            ports.push(l.local_addr().ok()?.port());
+            let st = state.clone();
+            std::thread::spawn(move || {
+                for s in l.incoming() {
+                    let Ok(mut s) = s else { continue };
+                    let _ = s.set_read_timeout(Some(std::time::Duration::from_millis(1000)));
+                    let mut buf = [0u8; 4096];
+                    let mut got: Vec<u8> = Vec::new();
+                    loop {
+                        match s.read(&mut buf) {
+                            Ok(0) | Err(_) => break,
+                            Ok(k) => {
+                                got.extend_from_slice(&buf[..k]);
+                                if got.windows(4).any(|w| w == b"\r\n\r\n") || got.len() > 65536 {
+                                    break;
+                                }
+                            }
+                        }
+                    }
+                    let head = String::from_utf8_lossy(&got).into_owned();
+                    let mut lines = head.split("\r\n");
+                    let first = lines.next().unwrap_or("");
+                    let mut parts = first.split(' ');
+                    let (method, target) = (parts.next().unwrap_or("").to_string(), parts.next().unwrap_or("").to_string());
+                    if method.is_empty() {
+                        continue; // a probe connection without a request
+                    }
+                    let host = lines
+                        .find_map(|l| l.split_once(':').filter(|(n, _)| n.eq_ignore_ascii_case("host")).map(|(_, v)| v.trim().to_string()))
+                        .unwrap_or_default();
+                    let answer = {
+                        let mut g = st.lock().unwrap_or_else(|e| e.into_inner());
+                        let idx = g.log.len();
+                        g.log.push(WireSeen { listener: id, method, host, target });
+                        g.script.get(idx).cloned().flatten()
+                    };
+                    let resp = match answer {
+                        Some(loc) => format!("HTTP/1.1 302 Found\r\nLocation: {loc}\r\nContent-Length: 0\r\nConnection: close\r\n\r\n"),
+                        None => "HTTP/1.1 200 OK\r\nContent-Length: 2\r\nConnection: close\r\n\r\nok".to_string(),
+                    };
+                    use std::io::Write;
+                    let _ = s.write_all(resp.as_bytes());
+                    let _ = s.flush();
+                    let _ = s.shutdown(std::net::Shutdown::Write);
+                }
+            });
+        }
+        Some(Loopback { ports, state })
+    }
+
+    /// Install the script for the next call and clear the log.
+    pub fn arm(&self, script: Vec<Option<String>>) {
+        let mut g = self.state.lock().unwrap_or_else(|e| e.into_inner());
+        g.script = script;
+        g.log.clear();
+    }
+
+    pub fn log(&self) -> Vec<WireSeen> {
+        self.state.lock().unwrap_or_else(|e| e.into_inner()).log.clone()
+    }
+}
+
+/// Names from /etc/hosts that resolve to 127.0.0.1 only and are not spelled like localhost: as redirect targets they
+/// pass the SDK's name-based internal-address filter and still reach the harness's loopback responders.
+pub fn loopback_aliases() -> Vec<String> {
+    use std::net::ToSocketAddrs;
+    let mut out = vec![];
+    for line in std::fs::read_to_string("/etc/hosts").unwrap_or_default().lines() {
+        let line = line.split('#').next().unwrap_or("");
+        let mut it = line.split_whitespace();
+        if it.next() != Some("127.0.0.1") {
+            continue;
+        }
+        for name in it {
+            let n = name.to_ascii_lowercase();
+            if n == "localhost" || n.ends_with(".localhost") || host_class(&n).is_some() || out.contains(&n) {
+                continue;
+            }
+            if !n.bytes().all(|b| b.is_ascii_alphanumeric() || b == b'-' || b == b'.') {
+                continue;
+            }
+            let ok = (n.as_str(), 80u16)
+                .to_socket_addrs()
+                .map(|a| {
+                    let v: Vec<_> = a.collect();
+                    !v.is_empty() && v.iter().all(|x| x.ip() == std::net::IpAddr::V4(std::net::Ipv4Addr::LOCALHOST))
+                })
+                .unwrap_or(false);
+            if ok {
+                out.push(n);
+            }
+        }
+    }
+    out
+}
